@@ -39,6 +39,7 @@ type desc struct {
 	RunsPerJob                int
 	HangSecs                  int
 	RunLimitSecs              int
+	WarmKnob                  bool // programs have a Cfg knob "warm" (see props.Prop.WarmKnob)
 }
 
 type violationRec struct {
@@ -157,7 +158,7 @@ func (b *builder) runWorker(node string, env []string, gomaxprocs int, timeout t
 		gomaxprocs = 1
 	}
 	e := append(os.Environ(), nc.Env...)
-	e = append(e, "GOMAXPROCS="+strconv.Itoa(gomaxprocs), "VERIF_NODE="+node, "GORACE=halt_on_error=1")
+	e = append(e, "GOMAXPROCS="+strconv.Itoa(gomaxprocs), "VERIF_NODE="+node, "GORACE=halt_on_error=1 history_size=7" /* the detector silently drops a report when the earlier access has left its per-goroutine history; a pairing between two accesses is enough for that at the default size */)
 	e = append(e, env...)
 	cmd.Env = e
 	var outb bytes.Buffer
@@ -897,6 +898,21 @@ func check(prop, tier string) int {
 		if err != nil {
 			c.infra("candidate idx %d on %s: %v", cand.idx, cand.node, err)
 			continue
+		}
+		if v == nil && c.d.WarmKnob && cand.p.Cfg["warm"] == 0 {
+			// The run was not the first of its worker process: process-wide lazily built tables had been built by earlier
+			// runs. A fresh process builds them during this run, and the synchronisation of that first use can order
+			// accesses that are otherwise unordered. The same program with the warm-up knob set states that context
+			// explicitly (the executor first uses every package-level singleton from the scheduler goroutine).
+			wp := *cand.p
+			wp.Cfg = map[string]int64{}
+			for k, x := range cand.p.Cfg {
+				wp.Cfg[k] = x
+			}
+			wp.Cfg["warm"] = 1
+			if v2, err2 := c.confirm(cand.node, &wp); err2 == nil && v2 != nil {
+				cand.p, v = &wp, v2
+			}
 		}
 		if v == nil {
 			c.infra("candidate violation (%s) at run %d on %s did not reproduce in a fresh process", cand.v.Class, cand.idx, cand.node)
